@@ -59,3 +59,23 @@ func errClass(err error) string {
 	}
 	return "other:" + strings.ReplaceAll(m, " ", "_")
 }
+
+// tokEsc renders an arbitrary string as ONE token of a model-input line: the empty string is `~`;
+// the bytes the line protocol splits on (space, `|`, `=`), `~`, `%` and anything outside printable
+// ASCII travel as %XX. Injective, and the model treats such tokens as opaque names, so equality of
+// names is preserved on both sides.
+func tokEsc(s string) string {
+	if s == "" {
+		return "~"
+	}
+	var b strings.Builder
+	for i := 0; i < len(s); i++ {
+		ch := s[i]
+		if ch <= ' ' || ch >= 0x7f || ch == '|' || ch == '=' || ch == '~' || ch == '%' {
+			b.WriteString("%" + strings.ToUpper(string("0123456789abcdef"[ch>>4])) + strings.ToUpper(string("0123456789abcdef"[ch&15])))
+		} else {
+			b.WriteByte(ch)
+		}
+	}
+	return b.String()
+}
